@@ -17,13 +17,11 @@ Theorem C11_theta_v3_prefix_stream_rejected : forall s e n, wf s -> (n < length 
   dec_stream e (firstn n (enc_v3 s)) = None.
 Proof. exact v3_prefix_stream. Qed.
 
-(* serial version 3, byte-buffer reader: every strict prefix is rejected, except that the four unused padding
-   bytes 12..15 of the 16-byte image of a non-empty sketch without entries may be missing: they carry no
-   information and the very same sketch is returned (the exception the property text allows). *)
+(* serial version 3, byte-buffer reader: every strict prefix is rejected, whatever seed hash is expected (the
+   parser checks that the whole preamble is present before it reads the entry count, so the unused padding
+   bytes 12..15 of a 16-byte preamble must be present too). *)
 Theorem C11_theta_v3_prefix_bytes_rejected : forall s e n, wf s -> (n < length (enc_v3 s))%nat ->
-  dec_bytes e (firstn n (enc_v3 s)) = None \/
-  (dec_bytes e (firstn n (enc_v3 s)) = Some s /\ k_entries s = [] /\ k_empty s = false /\
-   length (enc_v3 s) = 16%nat /\ (12 <= n)%nat).
+  dec_bytes e (firstn n (enc_v3 s)) = None.
 Proof. exact v3_prefix_bytes. Qed.
 
 (* serial version 4 (compressed): every strict prefix is rejected by both readers *)
@@ -58,7 +56,8 @@ Example C11_ex_prefixes :
   dec_bytes 37836 (firstn 47 (enc_v3 C11_ex)) = None /\ dec_stream 37836 (firstn 47 (enc_v3 C11_ex)) = None /\
   dec_bytes 37836 (firstn 20 (enc_v3 C11_ex)) = None /\ dec_stream 37836 (firstn 9 (enc_v3 C11_ex)) = None /\
   length (enc_v3 C11_ex0) = 16%nat /\
-  dec_bytes 37836 (firstn 12 (enc_v3 C11_ex0)) = Some C11_ex0 /\ dec_bytes 37836 (firstn 11 (enc_v3 C11_ex0)) = None /\
+  dec_bytes 37836 (enc_v3 C11_ex0) = Some C11_ex0 /\ dec_bytes 37836 (firstn 12 (enc_v3 C11_ex0)) = None /\
+  dec_bytes 37836 (firstn 15 (enc_v3 C11_ex0)) = None /\ dec_bytes 37836 (firstn 11 (enc_v3 C11_ex0)) = None /\
   dec_stream 37836 (firstn 15 (enc_v3 C11_ex0)) = None /\
   match enc_v4 C11_ex with
   | Some img => dec_bytes 37836 img = Some C11_ex /\ dec_bytes 37836 (firstn 32 img) = None /\
@@ -70,6 +69,15 @@ Proof. vm_compute. repeat split. Qed.
 Example C11_ex_corrupted :
   let img := firstn 8 (enc_v3 C11_ex) ++ [255; 255; 255; 255] ++ skipn 12 (enc_v3 C11_ex) in
   length img = 48%nat /\ dec_bytes 37836 img = None /\ dec_stream 37836 img = None.
+Proof. vm_compute. repeat split. Qed.
+
+(* short buffers whose entry count is 0: the preamble (16 bytes) is incomplete, so they are rejected although
+   no entry would be read (serial versions 3 and 2) *)
+Example C11_ex_short_preamble :
+  dec_bytes 7 [2; 3; 3; 0; 0; 10; 7; 0; 0; 0; 0; 0] = None /\
+  dec_bytes 7 [2; 2; 3; 0; 0; 10; 7; 0; 0; 0; 0; 0] = None /\
+  dec_bytes 7 [2; 3; 3; 0; 0; 10; 7; 0; 0; 0; 0; 0; 0; 0; 0; 0] = Some (mk false false 7 MAX_THETA []) /\
+  dec_bytes 7 [2; 2; 3; 0; 0; 10; 7; 0; 0; 0; 0; 0; 0; 0; 0; 0] = Some (mk true true 7 MAX_THETA []).
 Proof. vm_compute. repeat split. Qed.
 
 Print Assumptions C11_theta_read_in_bounds.
